@@ -161,14 +161,19 @@ Proof. vm_compute. repeat split. Qed.
 (* the seeded history: reader parked inside OnData, deferred local Close, then the session dies *)
 Example C11_example_deferred_close_then_session_dies :
   let s := run [RCall 8; RStep; RStep; RStep; EAdd 4; EFin; RWake BNotify; RStep; LDefer1; SClose; RWake BClose; RStep] init in
-  res s = Some RErrEOS /\ dpc s = true /\ closeN s = true.
+  res s = Some RErrClosed /\ dpc s = true /\ closeN s = true /\ ss s = SLocalHalf.
 Proof. vm_compute. repeat split. Qed.
 
 (* regression: the deferred Close alone now releases the reader parked inside OnData *)
 Example C11_regression_deferred_close_releases :
   let s := run [RCall 8; RStep; RStep; RStep; EAdd 4; EFin; RWake BNotify; RStep; LDefer1; LDefer2; RWake BClose; RStep] init in
-  res s = Some RErrEOS.
+  res s = Some RErrClosed.
 Proof. vm_compute. repeat split. Qed.
+
+(* the four stream states are the four distinct constants of the Go source (Gen/Consts.v) *)
+Example C11_stream_state_codes :
+  map sst_code [SOpen; SClosed; SHalf; SLocalHalf] = [0; 1; 2; 3].
+Proof. vm_compute. reflexivity. Qed.
 
 Example C11_example_flush :
   flush_retry true (fun _ => FPutFull) = (FRQueueFull, Z.to_nat c_flushRetryBound) /\
